@@ -67,6 +67,12 @@ theorem firstof_is_escaped (sf ae : Bool) (v : V) (h : sf = false ∧ ae = true)
   have : firstofText sf ae v = escapeHtml v.v.toS := by simp [firstofText, h.1, h.2]
   exact ⟨this, by rw [this]; exact C17.escape_no_special _⟩
 
+/-- the global opt-out, for contrast: with autoescape off (`SetAutoescape(false)`, or inside an
+    `autoescape off` region) a printed value is its text as it is — which is why the end-to-end
+    theorem below carries the hypothesis that the package default is on -/
+theorem switch_off_prints_raw (sf : Bool) (v : V) : printed sf false v = v.v.toS ∧ firstofText sf false v = v.v.toS := by
+  simp [printed, firstofText]
+
 /-- escaping is piecewise: printing a text in pieces (looping over its characters, printing the
     halves of a concatenation) gives the escape of the whole -/
 theorem escape_append (a c : Bytes) : escapeHtml (a ++ c) = escapeHtml a ++ escapeHtml c := by
@@ -265,7 +271,7 @@ theorem autoescape_from_source_to_output (hS : SetupOK T cfg L) (hg : EnvOK L g)
 
 /-- the premises are satisfiable: a set with an empty loader, any text as template text … -/
 example (T : LexTables) : SetupOK T { regTags := [], regFilters := [] } (fun _ => True) :=
-  ⟨(by intro l hl kv hkv; simp at hl; subst hl; cases hkv), (by intro l hl kv hkv; simp at hl; subst hl; cases hkv), fun _ _ => trivial⟩
+  ⟨(by intro l hl kv hkv; simp at hl; subst hl; cases hkv), (by intro l hl kv hkv; simp at hl; subst hl; cases hkv), fun _ _ => trivial, rfl⟩
 
 /-- … and the tokens of `<p>{{ name|upper }}</p>` are those of an opt-out-free source -/
 example : ToksOK (fun _ => True)
@@ -307,11 +313,12 @@ theorem word_free_source_is_optout_free (srcs : List Bytes) (src : Bytes) (hin :
 
 /-- **Autoescape, from the bytes of the sources to the bytes of the output**: if the byte strings
     `safe`, `filter` and `off` occur in none of the sources a set can load nor in the template
-    compiled, then whatever context (free of Go functions and of values pre-marked safe) it is
+    compiled, and the package default is on (`hon`; `SetAutoescape(false)` is the global opt-out), then
+    whatever context (free of Go functions and of values pre-marked safe) it is
     executed with, everything written — also before a failure — is a concatenation of literal text of
     those sources, `escape` output and the engine's own text for values that are not text.  Lexer
     (tables regenerated from the code), parser and interpreter of the model; every fuel. -/
-theorem autoescape_for_word_free_sources (cfg : SetCfg) (g : Env) (srcs : List Bytes) (src name : Bytes) (isString : Bool)
+theorem autoescape_for_word_free_sources (cfg : SetCfg) (hon : cfg.autoescape = true) (g : Env) (srcs : List Bytes) (src name : Bytes) (isString : Bool)
     (hloaders : ∀ l ∈ cfg.loaders, ∀ kv ∈ l, kv.2 ∈ srcs) (hroot : src ∈ srcs)
     (hfree : ∀ s ∈ srcs, ∀ w ∈ forbidden, ¬ w <:+: s)
     (hg : EnvOK (TemplateText srcs) g) (f1 f2 ti : Nat) (cs : CState)
@@ -325,7 +332,7 @@ theorem autoescape_for_word_free_sources (cfg : SetCfg) (g : Env) (srcs : List B
   have hS : SetupOK Gen.lexTables cfg (TemplateText srcs) :=
     ⟨fun l hl kv hkv => word_free_source_is_optout_free srcs kv.2 (hloaders l hl kv hkv) (hfree _ (hloaders l hl kv hkv)),
      fun l hl kv hkv => Or.inr (Or.inl (hloaders l hl kv hkv)),
-     fun kv hkv => Or.inr (Or.inr ⟨kv, hkv, rfl⟩)⟩
+     fun kv hkv => Or.inr (Or.inr ⟨kv, hkv, rfl⟩), hon⟩
   exact autoescape_from_source_to_output Gen.lexTables cfg g (TemplateText srcs) hS hg f1 f2 name src isString ti cs
     (word_free_source_is_optout_free srcs src hroot (hfree src hroot)) hc ctx hctx
 
